@@ -108,7 +108,7 @@ def run(ctx):
     for sf, origin, log in objs_:
         if not in_domain_sm(sf):
             res.count("skipped_out_of_domain"); continue
-        if not objs.scan_safe(sm_params(sf)):
+        if not objs.scan_safe(sm_params(sf), lead_nl=len(sf) == 0):
             res.count("skipped_unsafe_for_msdparser"); continue
         d = objs.dump_sm(sf)
         reqs.append({"op": "obj.ser_sm", "sf": d}); metas.append((sf, origin, log, d))
